@@ -50,7 +50,10 @@ Matches(ev, want) ==
 First == Ev.first
 \* the interpreter's decoded program: every CBRANCH jumps to the instruction after the last writer of its register
 TargetsOk(ev) == LET dec == DecodeProgram(ev.words)
-                 IN  ev.targets = [i \in 1..Len(dec) |-> IF dec[i].k = "CBRANCH" THEN dec[i].target ELSE -2]
+                     want == [i \in 1..Len(dec) |-> IF dec[i].k = "CBRANCH" THEN dec[i].target ELSE -2]
+                 IN  /\ ev.targets = want
+                     \* the targets the x86 JIT encoded (when the harness could read them back from the code buffer)
+                     /\ ("jtargets" \in DOMAIN ev /\ ev.jtargets # <<>>) => ev.jtargets = want
 TOracleFirst == /\ l <= Len(TraceLog) /\ Ev.e = "run" /\ Ev.tag = "oracle" /\ First
                 /\ TargetsOk(Ev)
                 /\ LET want == Expected(Ev) IN Matches(Ev, want) /\ ref' = want
